@@ -66,8 +66,8 @@ def cases(tier, seed):
         structs += [([2, 3, 2, 2], [1, 2, 3, 2, 1]), ([1], [1, 1]), ([2, 2, 1, 2, 2], [1, 2, 2, 2, 2, 1])]
     for N, R in structs:
         for op in ('add', 'radd', 'sub', 'rsub', 'mul', 'rmul', 'div'):
-            for sk in ('float', 'npfloat', 'tensor0', 'tensor1'):
-                if op in ('radd', 'rsub', 'rmul') and sk in ('tensor0', 'tensor1', 'npfloat'):
+            for sk in ('float', 'npfloat', 'npfloat32', 'npint', 'tensor0', 'tensor1'):
+                if op in ('radd', 'rsub', 'rmul') and sk in ('tensor0', 'tensor1', 'npfloat', 'npfloat32', 'npint'):
                     continue   # torch / numpy scalars on the left dispatch to torch / numpy first: not a torchtt entry point
                 s = {'op': op, 'N': N, 'R': R, 'dtype': 'float64', 'skind': sk}
                 if op == 'div':
